@@ -144,7 +144,7 @@ def check_logo(case, rec):
         if mat.shape[0] != len(cols):
             raise Violation("logo-rows", f"matrix has {mat.shape[0]} rows for {len(cols)} positions")
         for i, (c, _) in enumerate(cols):
-            for ch in set(mat.columns) | set(c):
+            for ch in (set(mat.columns) | set(c)) - {"-"}:
                 g = float(mat.iloc[i][ch]) if ch in mat.columns else 0.0
                 if g != c.get(ch, 0):
                     raise Violation("logo-count", f"position {i} residue {ch!r}: matrix {g}, counted {c.get(ch, 0)}")
@@ -328,7 +328,8 @@ def consensus_case(draw, tier="quick"):
 
 @st.composite
 def logo_case(draw, tier="quick"):
-    return {"seqs": draw(aligned_seqs(gaps=False, max_n=15, max_len=10))}
+    # half of the cases pre-aligned with gap characters (every column keeps a residue): the matrix counts residues, never gaps
+    return {"seqs": draw(aligned_seqs(gaps=True, max_n=15, max_len=10))}
 
 
 @st.composite
